@@ -97,7 +97,7 @@ def literalCheck (case : Json) : Json :=
   let res := (getArr (field case "lits")).map fun lj =>
     let l := litFromJson lj
     let accept := l.isOfType ty
-    let bits := l.asBits defs
+    let bits := if accept then l.asBits defs else []
     let spec : Json := match l.denote ty with
       | some v => Json.mkObj [("bits", bitsToString (v.encode ty)), ("has_type", v.hasType ty),
           ("roundtrip", match ty.decode (v.encode ty) with
